@@ -12,7 +12,7 @@ import (
 
 func init() {
 	property("C09",
-		"Static conformance of text handling: (a) the terminator table is {plain: $, ascii: \\0, braille: $} and the terminator is appended exactly when the text does not already end with it, unknown types unchanged; (b) every text value recorded for hoisting or returned for a text statement is the terminator-formatted content with the very string type that is recorded/returned next to it; (c) the string type travels unchanged into ast.Text and selects the directive (default .string); (d) the parallel text/type maps of a text poryswitch are read with the same key on every path; (e) one directive per line: emitText ranges over all lines of the value split at the same separator the lexer puts between adjacent literals and format() puts after a break.",
+		"Static conformance of text handling: (a) the terminator table is {plain: $, ascii: \\0, braille: $} and the terminator is appended exactly when the text does not already end with it, unknown types unchanged; (b) every text value recorded for hoisting or returned for a text statement is the terminator-formatted content with the very string type that is recorded/returned next to it; (c) the string type travels unchanged into ast.Text and selects the directive (default .string), and in the lexer a word directly followed by a quote is a string-type prefix whatever it spells; (d) the parallel text/type maps of a text poryswitch are read with the same key on every path; (e) one directive per line: emitText ranges over all lines of the value split at the same separator the lexer puts between adjacent literals and format() puts after a break.",
 		[]string{"contents of string literals (what the lexer accepts inside quotes) are not decided", "go/ssa lowering is faithful to the source"},
 		"C09.a", "C09.b", "C09.c", "C09.d", "C09.e", "C06.b", "C06.c", "C07.c", "C19.c")
 	property("C10",
